@@ -47,6 +47,7 @@ func vrf_shared(field interface{}, f func())             { panic("vrf intrinsic"
 func vrf_yield()                          { panic("vrf intrinsic") }
 func vrf_advance_time(ms int)             { panic("vrf intrinsic") }
 func vrf_elapse(ns int64)                 { panic("vrf intrinsic") }
+func vrf_env(prefix, field string, set bool, value string) { panic("vrf intrinsic") }
 func vrf_blocked_goroutines() int         { panic("vrf intrinsic") }
 func vrf_now() int64                      { panic("vrf intrinsic") }
 func vrf_locks_held() int                 { panic("vrf intrinsic") }
@@ -62,6 +63,7 @@ import (
 	"fmt"
 	"os"
 	"strconv"
+	"strings"
 	"time"
 )
 
@@ -220,6 +222,15 @@ func vrf_blocked_goroutines() int { return 0 }
 var vrfTimeScale int64 = 1
 
 func vrf_elapse(ns int64) { time.Sleep(time.Duration(ns / vrfTimeScale)) }
+
+func vrf_env(prefix, field string, set bool, value string) {
+	key := strings.ToUpper(prefix + "_" + field)
+	if set {
+		os.Setenv(key, value)
+	} else {
+		os.Unsetenv(key)
+	}
+}
 func vrf_strsuffix(s, suffix string) bool { return len(s) >= len(suffix) && s[len(s)-len(suffix):] == suffix }
 func vrf_strprefix(s, prefix string) bool { return len(s) >= len(prefix) && s[:len(prefix)] == prefix }
 func vrf_strcontains(s, sub string) bool {
